@@ -224,6 +224,46 @@ def sibling_eval(cfg):
 # --------------------------------------------------------------------------- explore
 
 
+# --------------------------------------------------------------------------- (g) many siblings (project size)
+
+CROWD_TARGETS = ["app.py", "vendor/app.py", "node_modules/pkg/app.py", "third_party/lib/app.py", "static/js/app.py", "ignored/app.py", ".cache/app.py"]
+CROWD_SRC = b"import random\nvalue = sum([random.random() for _ in range(3)])\n"
+CROWD_KINDS = {
+    "detector-less": "pixee:python/use-generator",
+    "semgrep-detected": "pixee:python/secure-random",
+    "sonar": "sonar:python/secure-random",
+}
+CROWD_SIZES = [0, 30, 700]  # 700 siblings in 200-character directories: the file list no longer fits any small buffer (~150 KB)
+
+
+def crowd_cfgs(tier):
+    return [(k, n) for k in CROWD_KINDS for n in (CROWD_SIZES if tier == "thorough" or k != "detector-less" else CROWD_SIZES[:2])]
+
+
+def crowd_eval(cfg):
+    kind, n = cfg
+    files = {t: CROWD_SRC for t in CROWD_TARGETS}
+    files[".gitignore"] = b"ignored/\n"
+    for i in range(n):
+        files[f"{'d%04d_' % i}{'x' * 194}/m{i}.py"] = b"VALUE = 1\n"
+    argv = ["{dir}", "--codemod-include", CROWD_KINDS[kind]]
+    results = {}
+    if kind == "sonar":
+        col = len("value = sum([")
+        hs = [{"ruleKey": "python:S2245", "status": "TO_REVIEW", "component": f"proj:{t}", "key": f"K{i}",
+               "textRange": {"startLine": 2, "endLine": 2, "startOffset": col, "endOffset": col + len("random.random()")}} for i, t in enumerate(CROWD_TARGETS)]
+        argv += ["--sonar-hotspots-json", "{res:h.json}"]
+        results["h.json"] = json.dumps({"hotspots": hs}).encode()
+    obs = drive.run_inproc(drive.Job(files=files, argv=argv, results=results, keep_before=False))
+    if obs.error:
+        raise core.HarnessError(obs.error)
+    out = {}
+    for t in CROWD_TARGETS:
+        cs = [c for r in (obs.report or {}).get("results", []) for c in r["changeset"] if c["path"] == t]
+        out[t] = core.sha12(json.dumps([obs.exit if isinstance(obs.exit, int) else "exception", (obs.final.get(t) or b"").hex(), cs], sort_keys=True))
+    return out, sum(1 for t in CROWD_TARGETS if obs.final.get(t) != CROWD_SRC)
+
+
 # --------------------------------------------------------------------------- (f) real hash seeds over the seed corpus
 
 _CORPUS_JOBS = None
@@ -380,6 +420,17 @@ def explore(tier, seed):
                 f"{pid}: {len(outs)} different outcomes (files / changesets) over PYTHONHASHSEED {hash_seeds}: seeds grouped {sorted(outs.values())}",
             )
 
+    # (g) many siblings
+    gcfgs = crowd_cfgs(tier)
+    gres = drive.pmap("cmverif.checks.c11:crowd_eval", gcfgs)
+    crowd_cov = {}
+    ref = {k: o for (k, n), (o, ch) in zip(gcfgs, gres) if n == 0}
+    for (k, n), (o, ch) in zip(gcfgs, gres):
+        crowd_cov.setdefault(k, {})[str(n)] = {"target_files_changed": ch}
+        bad = sorted(t for t in CROWD_TARGETS if o[t] != ref[k][t])
+        if bad:
+            cands.setdefault(f"crowd|{k}|outcome-depends-on-number-of-siblings", ({"kind": "crowd", "pipeline": k, "n": n}, f"with {n} unrelated sibling files the outcome for {bad} differs from the outcome without them"))
+
     known_open = {k["signature"] for k in core.load_known() if k["property"] == PROP and k["status"] == "open"}
     new = [(s, c) for s, c in sorted(cands.items()) if s not in known_open]
     repro = drive.confirm_replays("cmverif.checks.c11", [dict(c[0], sig=s) for s, c in new])
@@ -392,7 +443,7 @@ def explore(tier, seed):
     for sig, (rp, detail) in sorted(cands.items()):
         if sig in known_open:
             violations.append(Violation(PROP, sig, detail[:600], dict(rp, sig=sig), 1))
-    n_trans = total_exec + len(wcfgs) + len(hcfgs) + len(cli_cfgs) + len(rcfgs) + sib_runs + len(fcfgs)
+    n_trans = total_exec + len(wcfgs) + len(hcfgs) + len(cli_cfgs) + len(rcfgs) + sib_runs + len(fcfgs) + len(gcfgs)
     coverage = {
         "states": total_exec + len(hcfgs) + len(rcfgs) + len(wcfgs),
         "transitions": n_trans,
@@ -407,6 +458,7 @@ def explore(tier, seed):
         "hash_seeds_over_corpus": {"PYTHONHASHSEED": hash_seeds, "programs": corpus_programs, "project_runs": len(fcfgs), "rule": "every canonical trigger seed of every codemod, one real console-script run per (project, hash seed); per-file outcome (bytes, changesets, failed, unfixed) must be the same for every seed"},
         "rglob_orders": rglob_cov,
         "sibling_independence": {"codemods": len(scfgs), "runs": sib_runs, "file_outcomes_changed_by_codemod": sib_changed, "subsets": "full set + singletons of 3 files" if tier == "quick" else "all non-empty subsets of 4 files"},
+        "many_siblings": {"targets": CROWD_TARGETS, "sibling_counts": CROWD_SIZES, "per_pipeline": crowd_cov, "rule": "the outcome (bytes, changesets) of every target file is the same with 0, 30 and 700 unrelated files in 200-character directories"},
         "replay_divergence": divergence,
         "rule": "schedule exploration: stateless DFS, executions run to completion, every schedule with <= b preemptions; one outcome (tree + results) required. Other dimensions: every order of the seam's answer; one outcome required.",
     }
@@ -442,6 +494,11 @@ def replay(rp):
     if k == "hashseed-cli":
         outs = {hash_eval_cli((rp["selection"], hs))[0] for hs in range(4)}
         return (len(outs) == 1), f"{len(outs)} distinct outcomes over PYTHONHASHSEED 0..3"
+    if k == "crowd":
+        a, _ = crowd_eval((rp["pipeline"], 0))
+        b, _ = crowd_eval((rp["pipeline"], rp["n"]))
+        bad = sorted(t for t in CROWD_TARGETS if a[t] != b[t])
+        return (not bad), f"targets whose outcome depends on the {rp['n']} siblings: {bad}"
     if k == "hashseed-corpus":
         outs = corpus_hash_alone(rp["pid"], rp["seeds"])
         return (len(outs) == 1), f"{rp['pid']} alone: {len(outs)} distinct outcomes over PYTHONHASHSEED {rp['seeds']}: {sorted(outs.values())}"
